@@ -21,6 +21,12 @@ D = {
  'C14_a': ('C14', 'TransitionT copy assignment never clears payloadSet', 'a slot that held a payloaded transition is overwritten by a payload-less one (next step, or substituted round)'),
  'C15_a': ('C15', 'payload copy of updatePlan drops the special case for cyclic tasks', 'plans + PayloadT<> configured, a cyclic task X->X followed by X->Y, X succeeds'),
  'C17_a': ('C17', 'RHalfCST adds LHalf ORTHO_UNITS instead of ORTHO_COUNT to the ortho index', 'an orthogonal region with >= 9 sub-states in the left half of a composite, another region in the right half'),
+ 'C02_c': ('C02', 'C_::deepReportUtilize returns the best sub-state index of the nested region instead of the region index in its parent', 'utilize on a Utilitarian region one of whose candidates is a composite region that wins, with differing indices'),
+ 'C04_c': ('C04', 'processTransitions round loop rewritten as do/while with a post-increment test: SUBSTITUTION_LIMIT + 1 rounds', 'a chain of guard substitutions as long as the limit'),
+ 'C06_c': ('C06', 'payload copy of updatePlan clears the origin success mark inside the task loop: a second task with the same origin is not executed', 'PayloadT<> configured, two non-cyclic tasks sharing one origin'),
+ 'C08_c': ('C08', 'OSI_::ACTIVE_BITS takes the max instead of the sum over orthogonal sub-regions: SerialBuffer too small', 'orthogonal region with >= 2 composite sub-regions and a bit count crossing a byte boundary (three 2-wide composites under an orthogonal root)'),
+ 'C09_c': ('C09', 'replayEnter() requests the default configuration with restart instead of change', 'Manual activation, history, a Selectable/Utilitarian region on the default activation path that the replayed requests do not re-resolve'),
+ 'C16_c': ('C16', 'activityHistory clamp tests INT8_MIN in the active branch: the counter wraps to -128 after 127', 'structure report, a state active for 128 consecutive report updates'),
  'C16_a': ('C16', 'cancelPendingTransitions() logs only the first cancellation of a guard pass', 'logger attached, two orthogonal siblings both cancel in the same guard pass'),
  'C01_b': ('C01', 'requestImmediate (generic registry) third loop no longer marks the orthogonal prong of already-active forks above the destination', 'orthogonal region with two nested composite levels in one prong, both active, destination an INACTIVE region (not a leaf)'),
  'C02_b': ('C02', 'Bits/CBits::operator bool computes the last unit as (width-1)/8 and masks it with width%8: empty mask when width is a multiple of 8', 'an orthogonal region with exactly 8 (16, ..) sub-states entered from outside with a destination below a nested region'),
